@@ -366,6 +366,55 @@ static void run_repro(Ctx& ctx, bool T) {
             }
         }
     }
+    // scalar randi draws that ALTERNATE between ranges (a generator that caches its distribution between calls must key the
+    // cache on both bounds): groups of ranges sharing an upper bound (negative, zero, positive) with different lower bounds,
+    // sharing a lower bound with different upper bounds, single-value ranges {k,k} for negative k.  Every draw lies inside its
+    // own range and the whole interleaved sequence replays after rng(seed).
+    {
+        struct R {
+            int lo, hi;
+        };
+        std::vector<std::pair<std::string, std::vector<R>>> groups = {
+            {"upper=-3", {{-10, -3}, {-5, -3}, {-3, -3}}},
+            {"upper=-1", {{-100, -1}, {-1, -1}, {-2, -1}}},
+            {"upper=0", {{-7, 0}, {-2, 0}, {0, 0}}},
+            {"upper=7", {{0, 7}, {5, 7}, {7, 7}, {-7, 7}}},
+            {"lower=-10", {{-10, -10}, {-10, -8}, {-10, -1}, {-10, 0}, {-10, 5}}},
+            {"lower=0", {{0, 0}, {0, 2}, {0, 9}}},
+            {"lower=5", {{5, 5}, {5, 7}, {5, 14}}},
+            {"single-negative", {{-1, -1}, {-3, -3}, {-100, -100}, {-2147483647, -2147483647}}},
+            {"mixed", {{-5, -3}, {-5, 5}, {3, 5}, {-2147483647, -3}, {-10, -3}}},
+        };
+        for (auto& g : groups)
+            for (int seed = 0; seed < (T ? 200 : 20); ++seed) {
+                if (!ctx.take("randi.alternate", P().kv("group", g.first).kv("seed", seed))) continue;
+                ctx.nontrivial();
+                const std::vector<R>& rs = g.second;
+                const int NR = (int)rs.size(), ND = 600;
+                std::vector<int> first((size_t)ND);
+                bool reported = false;
+                for (int pass = 0; pass < 2; ++pass) {
+                    d::rng(seed);
+                    for (int i = 0; i < ND; ++i) {
+                        // interleaving: forward sweeps, backward sweeps and immediate repeats of one range
+                        const int k = (i / NR) % 3 == 0 ? i % NR : ((i / NR) % 3 == 1 ? NR - 1 - i % NR : (i / 2) % NR);
+                        const int v = d::randi({rs[(size_t)k].lo, rs[(size_t)k].hi});
+                        if (pass == 0) first[(size_t)i] = v;
+                        if (reported) continue;
+                        if (v < rs[(size_t)k].lo || v > rs[(size_t)k].hi) {
+                            reported = true;
+                            ctx.fail("randi", fmt("draw %d: randi({%d,%d}) = %d (previous range {%d,%d})", i, rs[(size_t)k].lo, rs[(size_t)k].hi, v,
+                                                  i ? rs[(size_t)((i - 1) / NR % 3 == 0 ? (i - 1) % NR : ((i - 1) / NR % 3 == 1 ? NR - 1 - (i - 1) % NR : ((i - 1) / 2) % NR))].lo : 0,
+                                                  i ? rs[(size_t)((i - 1) / NR % 3 == 0 ? (i - 1) % NR : ((i - 1) / NR % 3 == 1 ? NR - 1 - (i - 1) % NR : ((i - 1) / 2) % NR))].hi : 0),
+                                     "inside its own inclusive bounds", P().kv("what", "bounds").kv("i", i));
+                        } else if (pass == 1 && v != first[(size_t)i]) {
+                            reported = true;
+                            ctx.fail("randi", fmt("draw %d differs on replay after rng(%d): %d vs %d", i, seed, v, first[(size_t)i]), "same values", P().kv("what", "replay").kv("i", i));
+                        }
+                    }
+                }
+            }
+    }
     // rand({a,b}, n) takes a real-valued range: fractional bounds must be honoured (values inside [a,b]; the attained spread is
     // recorded - the statement demands no distribution for rand, so only the documented range is judged)
     {
